@@ -13,7 +13,7 @@ EXTENDS Naturals, Integers, Sequences, FiniteSets, TLC, Json, IOUtils
 FlagSets == SUBSET {"UP", "UV"}
 Counters == {"none", "zero", "one", "max"}
 IdLens == {0, 1, 16, 64, 255, 256, 1023, 65535}
-Exts == {"none", "mc-bool", "ga-bytes"}
+Exts == {"none", "mc-bool", "ga-bytes", "mc-mconly", "mc-mcboth", "mc-false"}
 \* the extension setters called twice: the second call may replace, clear or leave the section - whichever it does,
 \* the ED bit must describe what is encoded
 SeqExts == {"mc-then-none", "ga-then-empty", "mc-then-ga", "none-then-mc"}
